@@ -339,10 +339,31 @@ def pid_warm_cases(draw):
     if draw(st.booleans()):
         scn["pvars"] = []
     if draw(st.booleans()):
-        scn["ibm"]["lifetime"] = draw(st.sampled_from([1, 2, 2, 3]))
-    if draw(st.booleans()) and not scn["release"]["continuous"]:
-        scn["release"]["continuous"] = True
-        scn["release"]["freq"] = draw(st.integers(1, 3))
+        # the youngest particles are seen in one file, die, and are absent from every record of the next file,
+        # from which the run is restarted; a release follows later
+        nst = scn["time"]["nsteps"] = max(scn["time"]["nsteps"], 7)
+        need = scn["time"]["pre"] + nst + 1
+        while sum(scn["forcing"]["gaps"]) < need:
+            scn["forcing"]["gaps"].append(3)
+        scn["forcing"]["partition"] = [len(scn["forcing"]["gaps"]) + 1]
+        rows = scn["release"]["rows"][:1]
+        base = dict(rows[0], step=0, mult=1)
+        nyoung = draw(st.integers(1, 2))
+        rows = [dict(base, tag=k, fx=base["fx"] * (1 - 0.1 * k)) for k in range(2 + nyoung)]
+        late = draw(st.integers(4, nst - 1))
+        rows.append(dict(base, tag=len(rows), step=late))
+        scn["release"].update(rows=rows, continuous=False, freq=0)
+        scn["ibm"].update(kills=[[draw(st.integers(0, 1)), 2 + k] for k in range(nyoung)], deactivate=[], lifetime=0)
+        scn["output"].update(period=1, numrec=2)
+        scn["warm_point"] = 1
+        scn["pvars"] = draw(st.sampled_from([[], [], ["X0"]]))
+        scn["forcing"]["vel"].update(kind="const", u=0.02, v=0.0)   # nobody leaves the grid
+    else:
+        if draw(st.booleans()):
+            scn["ibm"]["lifetime"] = draw(st.sampled_from([1, 2, 2, 3]))
+        if draw(st.booleans()) and not scn["release"]["continuous"]:
+            scn["release"]["continuous"] = True
+            scn["release"]["freq"] = draw(st.integers(1, 3))
     return scn
 
 
@@ -363,7 +384,7 @@ def run_pid_laws(ctx):
     jobs = [("output", k, core.subseed(ctx.seed, "pidlaw", i), frozenset())
             for i, k in enumerate(core.split(ctx.n(320, 6000), 10))]
     jobs += [("output_warm", k, core.subseed(ctx.seed, "pidlaww", i), frozenset())
-             for i, k in enumerate(core.split(ctx.n(360, 5000), 6))]
+             for i, k in enumerate(core.split(ctx.n(480, 6000), 6))]
     stats = core.Stats()
     for s in core.pmap(shard, jobs):
         stats.merge(s)
